@@ -1,19 +1,18 @@
 /-
-C15, schema 2.x crates: guarded mirrors of the two places where the model of
-`Db/Chain.lean` / `Db/V2Crates.lean` replaces an unbounded C++ / SQLite loop by
-a fuel-bounded total function that *silently stops* when the fuel is used up.
-Here running out of fuel is the explicit outcome `ub nontermination`, so that
-"the loop terminates" becomes a statement that can be proved (and that fails on
-cyclic data):
+C15, schema 2.x crates: the model of the crates-2.x work-package (`Db/V2Crates.lean`, `Db/Chain.lean`)
+with every place at which the C++ can invoke undefined behaviour written as a POSSIBLE `ub`:
 
-* `walkBackG`  — the `do … while (it != end)` of `sort_ids` /
-  `playlist_entity_table::get_for_list` (fuel = number of selected rows, as in
-  `walkBack`; one more lookup decides whether the loop would go on);
-* `isAncG` / `descendantIdsG` — the recursive view `PlaylistAllChildren` read by
-  `playlist_table::descendant_ids` (fuel = number of Playlist rows, as in `isAnc`).
+* `walkBackG` / `sortIdsG` / `getForListG` — the `do … while (it != end)` of `sort_ids` /
+  `playlist_entity_table::get_for_list`: the package's `walkBack` gives the loop `rows.length` steps and then
+  stops silently; here one more lookup decides whether the loop would go on (`ub nontermination`); the missing
+  tail (`curr->second` on `end()`, the `assert` is compiled out) is `ub oob_read` in both;
+* the recursive view `PlaylistAllChildren` (cycle test of set_parent, remove_crate, descendants()) is the
+  package's own `descendantIds : Res` (level-wise iteration, `ub nontermination` on a cyclic table);
+* `stepGW` / `q*G` — every `*opt` / `opt->` of crate_impl.cpp, database_impl.cpp and
+  playlist_entity_table.cpp as `ub empty_optional` behind the guard the C++ has, the guard conditions being
+  regenerated from the source on every run (`Gen.C15Guards`, tools/tr_c15guards.py).
 
-The functions delegate to the definitions of the crates-2.x work-package
-(`lookupNext`, `rowsOf`, `get`); nothing of theirs is changed.
+Nothing of the package's files is changed.
 -/
 import EngineModel.Db.V2Crates
 import EngineModel.Gen.C15Guards
@@ -41,35 +40,6 @@ def walkBackG (t : Table α) (k : Int) : Res (List (Row α)) :=
   else match lookupNext rows 0 with
     | none => .ub .oob_read
     | some _ => walkFuelG rows rows.length 0 []
-
-/-- `isAncFuel` where using up the fuel is `nontermination` (the recursive CTE keeps producing rows). -/
-def isAncFuelG (t : Table Bytes) (a : Int) : Nat → Int → Res Bool
-  | 0, _ => .ub .nontermination
-  | n + 1, x =>
-    match get t x with
-    | none => .ok false
-    | some r => if r.key == 0 then .ok false else if r.key == a then .ok true else isAncFuelG t a n r.key
-
-def isAncG (t : Table Bytes) (a x : Int) : Res Bool := isAncFuelG t a t.length x
-
-def filterG (p : Row Bytes → Res Bool) : List (Row Bytes) → Res (List (Row Bytes))
-  | [] => .ok []
-  | r :: l =>
-    match p r with
-    | .ok b =>
-      match filterG p l with
-      | .ok rs => .ok (if b then r :: rs else rs)
-      | .throw e => .throw e
-      | .ub u => .ub u
-    | .throw e => .throw e
-    | .ub u => .ub u
-
-/-- `playlist_table::descendant_ids` over the guarded view. -/
-def descendantIdsG (t : Table Bytes) (c : Int) : Res (List Int) :=
-  match filterG (fun r => isAncG t c r.id) t with
-  | .ok rs => .ok (rs.map (·.id))
-  | .throw e => .throw e
-  | .ub u => .ub u
 
 /-! ### every dereference of the C++ call paths, with the C++ guard taken from the source
 
@@ -105,13 +75,6 @@ def getForListG (t : Table Ent) (k : Int) : Res (List (Row Ent)) :=
   else match lookupNext rows 0 with                                -- :166
     | none => .ub .oob_read                                        -- :171 `curr->second.id` on end()
     | some _ => walkFuelG rows rows.length 0 []                    -- :169-174
-
-/-- `playlist_table::remove` with the ids the recursive view returned. -/
-def plRemoveWith (d : Db) (c : Int) (desc : List Int) : Db :=
-  let removed := c :: desc
-  let pe := removed.foldl (fun pe i => clearKey fires pe i) d.pe
-  let pl := removed.foldl (fun pl i => deleteCascade pl i) d.pl
-  { d with pe := pe, pl := pl }
 
 /-- The guard conditions of the mutating call paths.  `Guards.source` = what the C++ source says today
 (regenerated on every run); other values describe hypothetical sources (a guard dropped or weakened) and
@@ -163,7 +126,7 @@ def setParentCheckG (g : Guards) (d : Db) (c : Int) (p : Option Int) : Res (Opti
   if g.setParentGiven p.isSome then                                  -- :250 if (parent)
     (deref p).bind fun q =>                                                             -- :252 parent->id()
       if !plExists d q then .ok (some (exn "crate_deleted"))
-      else (descendantIdsG d.pl c).bind fun ds =>                                       -- :257 the recursive view
+      else (descendantIds d.pl c).bind fun ds =>                                       -- :257 the recursive view
         if ds.contains q then .ok (some (exn "crate_invalid_parent")) else .ok none     -- :258 (parent->id() again)
   else .ok none
 
@@ -225,8 +188,8 @@ def stepGW (g : Guards) (d : Db) : Op → Db × Res Out
   -- database_impl::remove_crate → playlist_table::remove (playlist_table.cpp:203-232)
   | .removeCrate c =>
     if !plExists d c then (d, .throw .invalid_argument)                                 -- :205
-    else match descendantIdsG d.pl c with                                               -- :217 the recursive view
-      | .ok ds => (plRemoveWith d c ds, .ok none)
+    else match descendantIds d.pl c with                                                -- :217 the recursive view
+      | .ok ds => (plRemove d (c :: ds), .ok none)
       | .throw e => (d, .throw e)
       | .ub u => (d, .ub u)
   -- crate_impl::add_track (crate_impl.cpp:37-62) → add_back
@@ -297,7 +260,7 @@ def queryG (d : Db) : Query → Res Unit
   | .crates => .ok ()
   | .roots => (sortIdsG d.pl 0).bind fun _ => .ok ()
   | .children c => (sortIdsG d.pl c).bind fun _ => .ok ()
-  | .descendants c => (descendantIdsG d.pl c).bind fun _ => .ok ()
+  | .descendants c => (descendantIds d.pl c).bind fun _ => .ok ()
   | .parent c => (qParentG d c).bind fun _ => .ok ()
   | .name c => (qNameG d c).bind fun _ => .ok ()
   | .valid _ => .ok ()
